@@ -697,6 +697,9 @@ var c04Defects = []string{
 	"aud:wrong", "aud:wrong-array", "aud:empty-array", "aud:case", "aud:suffix", "aud:prefix", "aud:empty",
 	"time:expired", "time:just-expired", "time:not-yet", "time:nbf-before-iat", "time:life-25h", "time:life-25h-from-iat", "time:life-24h15m",
 	"time:exp-1e18", "time:exp-maxint64", "time:exp-2^64+", "time:exp-1e400", "time:epoch-iat-nbf", "time:negative-iat", "time:exp-string",
+	// exp values a library may read as "no expiration"
+	"time:exp-zero", "time:exp-zero-float", "time:exp-neg-zero", "time:exp-half-second", "time:exp-zero-string", "time:exp-zero-old-iat", "time:all-zero",
+	"time:exp-one", "time:exp-minus-one", "time:exp-null", "time:exp-false", "time:exp-tiny",
 	// signer / key
 	"key:unlisted", "key:unlisted-own-kid", "key:weakrsa", "key:nocomment", "key:nocomment-empty-iss", "key:commented",
 	// algorithm
@@ -794,6 +797,34 @@ func c04ApplyDefect(tk *c04Tok, d string, sel int) {
 		c04SetClaim(tk, c04Claim{N: "nbf", K: "j", S: "0"})
 	case "time:negative-iat":
 		c04SetClaim(tk, c04Claim{N: "iat", K: "j", S: "-9223372036854775808"})
+	case "time:exp-zero":
+		c04SetClaim(tk, c04Claim{N: "exp", K: "j", S: "0"})
+	case "time:exp-zero-float":
+		c04SetClaim(tk, c04Claim{N: "exp", K: "j", S: "0.0"})
+	case "time:exp-neg-zero":
+		c04SetClaim(tk, c04Claim{N: "exp", K: "j", S: "-0"})
+	case "time:exp-half-second":
+		c04SetClaim(tk, c04Claim{N: "exp", K: "j", S: "0.5"})
+	case "time:exp-tiny":
+		c04SetClaim(tk, c04Claim{N: "exp", K: "j", S: "1e-9"})
+	case "time:exp-zero-string":
+		c04SetClaim(tk, c04Claim{N: "exp", K: "s", S: "0"})
+	case "time:exp-zero-old-iat": // issued 100 days ago, "never" expires
+		c04SetClaim(tk, c04Claim{N: "iat", K: "t", T: -100 * 86400})
+		c04SetClaim(tk, c04Claim{N: "nbf", K: "t", T: -100 * 86400})
+		c04SetClaim(tk, c04Claim{N: "exp", K: "j", S: "0"})
+	case "time:all-zero":
+		c04SetClaim(tk, c04Claim{N: "iat", K: "j", S: "0"})
+		c04SetClaim(tk, c04Claim{N: "nbf", K: "j", S: "0"})
+		c04SetClaim(tk, c04Claim{N: "exp", K: "j", S: "0"})
+	case "time:exp-one":
+		c04SetClaim(tk, c04Claim{N: "exp", K: "j", S: "1"})
+	case "time:exp-minus-one":
+		c04SetClaim(tk, c04Claim{N: "exp", K: "j", S: "-1"})
+	case "time:exp-null":
+		c04SetClaim(tk, c04Claim{N: "exp", K: "j", S: "null"})
+	case "time:exp-false":
+		c04SetClaim(tk, c04Claim{N: "exp", K: "j", S: "false"})
 	case "time:exp-string":
 		c04SetClaim(tk, c04Claim{N: "exp", K: "s", S: "tomorrow"})
 	case "key:unlisted", "key:unlisted-own-kid":
